@@ -666,7 +666,12 @@ impl SocketHandler for FrontRustls {
         );
         if is_error {
             (size, SocketResult::Error)
-        } else if is_closed {
+        } else if is_closed && size < buf.len() {
+            // The peer's end-of-stream is reported only once the caller's buffer
+            // was NOT filled: with a full buffer the TLS session may still hold
+            // decrypted bytes that did not fit (a small buffer, a large last
+            // write followed by close_notify/FIN); the caller reads again and
+            // gets them, then the end of the stream.
             (size, SocketResult::Closed)
         } else if size == buf.len() {
             // The full requested amount was read (possibly from the rustls
